@@ -220,7 +220,7 @@ func reverseHex(val string) string {
 }
 
 func sha512Emptied() bool {
-	fi, err := os.Stat("/repo/pkg/crypto/sha512/sha512.circ")
+	fi, err := os.Stat(runner.RepoDir + "/pkg/crypto/sha512/sha512.circ")
 	return err == nil && fi.Size() == 0
 }
 
@@ -350,7 +350,7 @@ func work(ctx *runner.Ctx) {
 	mpclgen.All(quick, emit)
 	// @Test vectors
 	var files []string
-	filepath.WalkDir("/repo/testsuite", func(path string, d fs.DirEntry, err error) error {
+	filepath.WalkDir(runner.RepoDir+"/testsuite", func(path string, d fs.DirEntry, err error) error {
 		if err == nil && !d.IsDir() && compiler.IsFilename(path) {
 			files = append(files, path)
 		}
